@@ -145,18 +145,58 @@ def check(drv, pid, tier, seed):
                                  theorem_or_correspondence='the case file %s could not be evaluated by coqc' % broken[0][0],
                                  output=broken[0][1]), 'no-failing-input-found')
     reported = 0
+    refinement = cfg.get('refinement', cfg['kind'] == 'pool')
+    extra = meta.get('extra') or {}
+    pred = {pv['case']: pv['violated'] for pv in (extra.get('predicate_violations') or [])}
+    known = [k for k in drv.load_findings().get('known', []) if isinstance(k, dict) and k.get('property') == pid]
+    known_hit = {}
+
+    def is_known(text):
+        for k in known:
+            if re.search(k['match'], text, re.S):
+                known_hit[k['id']] = k
+                return True
+        return False
+
     for (g, step, shard, local) in mism:
+        trace = meta['traces'][g]
+        if is_known('\n'.join(trace)):
+            continue
         viol += 1
         if reported >= 3:
             continue
         reported += 1
-        trace = meta['traces'][g]
         mv = model_view(drv, pid, outdir, shard, local, step)
-        violation(drv, pid, dict(property=pid, seed=seed, tier=tier, count=count, case=g, step=step, kind='history',
-                                 element_type=None, history=trace[:step + 1],
-                                 explanation='the implementation (observed results in the history) and the model disagree at the last step shown; for this refinement-shaped property the difference on an observable is the counterexample',
-                                 model_view=mv[-4000:],
-                                 rerun='./check replay <this file>'))
+        if refinement:
+            violation(drv, pid, dict(property=pid, seed=seed, tier=tier, count=count, case=g, step=step, kind='history',
+                                     history=trace[:step + 1],
+                                     explanation='the implementation (observed results in the history) and the model disagree at the last step shown; for this refinement-shaped property the difference on an observable is the counterexample',
+                                     model_view=mv[-4000:], rerun='./check replay <this file>'))
+        elif g in pred:
+            violation(drv, pid, dict(property=pid, seed=seed, tier=tier, count=count, case=g, step=step, kind='history',
+                                     history=trace, property_predicates_violated_on_the_implementation=pred[g],
+                                     explanation='the implementation and the model disagree on this case (code = second number of the mismatch, see the *Run.v file) AND the property\'s own predicates, evaluated by the harness on the observed behaviour of the real code, fail as listed: this case is the concrete failing input',
+                                     model_view=mv[-4000:], rerun='./check replay <this file>'))
+        else:
+            violation(drv, pid, dict(property=pid, seed=seed, tier=tier, count=count, case=g, step=step, kind='correspondence',
+                                     history=trace,
+                                     theorem_or_correspondence='correspondence %s (coq/*Run.v mismatch code %s): the implementation no longer behaves like the model the theorems are about on this case; the property\'s own predicates evaluated on the observed behaviour did not fail, so the property is no longer shown to hold rather than shown to fail' % (pid, step),
+                                     model_view=mv[-4000:], rerun='./check replay <this file>'), 'no-failing-input-found')
+    # the property's own predicates failing on the implementation although model and implementation agree
+    for g, bad in sorted(pred.items()):
+        if g in [m[0] for m in mism]:
+            continue
+        if is_known('\n'.join(meta['traces'][g]) + '\n' + '\n'.join(bad)):
+            continue
+        viol += 1
+        if reported >= 3:
+            continue
+        reported += 1
+        violation(drv, pid, dict(property=pid, seed=seed, tier=tier, count=count, case=g, kind='predicate', history=meta['traces'][g],
+                                 property_predicates_violated_on_the_implementation=bad,
+                                 explanation='the property\'s own predicates, evaluated by the harness on the observed behaviour of the real code, fail on this case'))
+    for k in known_hit.values():
+        print('KNOWN-FINDING: property=%s %s' % (pid, k['what']), flush=True)
     if viol > reported:
         print('(%d further mismatching cases not written out)' % (viol - reported))
     nobl, names = drv.count_obligations(cfg['files'])
